@@ -497,7 +497,7 @@ Theorem C03_held_reject_unknown_key_anywhere : forall N muted ch ms n t h d rest
 Proof.
   intros N muted ch ms n t h d rest k v Hs Hd Hin Hk.
   apply (hplay_reject N muted ch ms n t h d rest ValueError Hs Hd); [|reflexivity].
-  apply (reject_unknown _ _ k (deref_val (apply_muts ms (t - 1) (h_store h)) v)); [apply in_deref; exact Hin|exact Hk].
+  apply (reject_unknown _ _ k (read_val (apply_muts ms (t - 1) (h_store h)) k v)); [apply in_deref; exact Hin|exact Hk].
 Qed.
 Print Assumptions C03_held_reject_unknown_key_anywhere.
 
@@ -523,4 +523,69 @@ Example C03_held_nonvacuous :
   /\ key_is_held lib_defaults (ev (VInt 0)) 0
   /\ Held.key_of (hrun init_store [HScale 100 "held-major" (mkScale [0; 2; 4; 5; 7; 9; 11] 12); HKey 0 0 100; HTonic 0 2]) 0
      = Some (mkKey 2 (mkScale [0; 2; 4; 5; 7; 9; 11] 12)).
+Proof. vm_compute. repeat split. left; reflexivity. Qed.
+
+(** * "keys given as ... names": a key given BY NAME ("C minor", "D major", "E myscale" - in the dictionary or as the
+      timeline's default) is looked up in the registry of scale names AS IT IS when the event is due.  The registry is the
+      [st_reg] of the same store (Tonal/Held.v): scales, weighted scales, copies and keys constructed between two events of
+      a running track - under ANY name, also one that is registered already - are operations [muts] of the history.
+      [key_of_name_reg st s] = Key(s) in the store st. *)
+
+(* each voice plays key[degree] + 12 * octave + transpose for the key the name denotes in the store of that moment *)
+Theorem C03_named_key_pitch : forall st defs d e s k dv z ov tv oc tr,
+  defaults_shape defs -> resolve (deref_dict st defs) (deref_dict st d) = Ok e ->
+  spec_selecting_key (dhas d) = Some K_NOTE ->
+  dget d K_NOTE = None -> dget d K_DEGREE = Some dv -> degree_floor dv = Some z ->
+  key_is_named defs d s -> key_of_name_reg st s = Ok k ->
+  spec_param (deref_dict st defs) (deref_dict st d) [K_OCTAVE] K_OCTAVE = Some ov -> py_int ov = Ok oc ->
+  spec_param (deref_dict st defs) (deref_dict st d) [K_TRANSPOSE] K_TRANSPOSE = Some tv -> py_int tv = Ok tr ->
+  exists a g ch pb, e_body e = BNote (VInt (spec_pitch k z oc tr)) a g ch pb.
+Proof. exact named_scalar_pitch. Qed.
+Print Assumptions C03_named_key_pitch.
+
+Theorem C03_named_key_pitch_chord : forall st defs d e s k l zs ov tv oc tr,
+  defaults_shape defs -> resolve (deref_dict st defs) (deref_dict st d) = Ok e ->
+  spec_selecting_key (dhas d) = Some K_NOTE ->
+  dget d K_NOTE = None -> (dget d K_DEGREE = Some (VTup l) \/ dget d K_DEGREE = Some (VList l)) -> l <> [] ->
+  degree_floors l = Some zs ->
+  key_is_named defs d s -> key_of_name_reg st s = Ok k ->
+  spec_param (deref_dict st defs) (deref_dict st d) [K_OCTAVE] K_OCTAVE = Some ov -> py_int ov = Ok oc ->
+  spec_param (deref_dict st defs) (deref_dict st d) [K_TRANSPOSE] K_TRANSPOSE = Some tv -> py_int tv = Ok tr ->
+  exists a g ch pb, e_body e = BNote (VList (map (fun z => VInt (spec_pitch k z oc tr)) zs)) a g ch pb.
+Proof. exact named_chord_pitch. Qed.
+Print Assumptions C03_named_key_pitch_chord.
+
+(* in the freshly imported library a key name means exactly what Sched/Event.v's [key_of_name] (the generated table of
+   the library's scales) says: the theorems about [resolve] with string keys are the special case of the initial store *)
+Theorem C03_key_name_library : forall s, key_of_name_reg init_store s = key_of_name s.
+Proof. exact key_of_name_reg_init. Qed.
+Print Assumptions C03_key_name_library.
+
+(* what a key name denotes is NOT changed by anything that happens in the process in between - scales and weighted scales
+   constructed under any name (also under the scale name of this very key, also the default name "major" of an unnamed
+   WeightedScale), copies (they carry the name of their original) edited afterwards, keys built from names, other objects
+   re-tuned -, as long as the registered Scale object itself is not written: for EVERY store and EVERY such history *)
+Theorem C03_key_name_stable : forall st ops name sn r,
+  scale_name_of name = Some sn -> reg_of st sn = Some r ->
+  Forall (fun o => op_oid o <> Some r) ops ->
+  key_of_name_reg (hrun st ops) name = key_of_name_reg st name.
+Proof. exact key_name_stable. Qed.
+Print Assumptions C03_key_name_stable.
+
+(* non-vacuity: degrees 0..3 in "C minor" by name at octave 5, twice; between the passes the user copies the library's minor
+   scale and edits the copy, constructs a scale called "minor" and an unnamed WeightedScale (named "major" by default); then
+   "D major" by name: all passes play the library's scales; a user scale registered mid-stream is found under its name *)
+Example C03_named_nonvacuous :
+  let ev := fun nm dg => [("degree"%string, VInt dg); ("key"%string, VStr nm); ("octave"%string, VInt 5)] in
+  let ons := fun tr => flat_map (fun c => match snd c with Call "note_on" (VInt n :: _) => [n] | _ => [] end) tr in
+  ons (fst (run_held 4 false 56 lib_defaults [] []
+         [(15, [HScaleCopy 200 3; HSemis 200 [0; 2; 3; 6; 7; 8; 11]; HScale 201 "minor"%string (mkScale [0; 1; 2] 12);
+                HScale 202 "major"%string (mkScale [0; 4; 7] 12); HScale 203 "nineteen"%string (mkScale [0; 5; 11] 19)])]
+         ([ev "C minor"%string 0; ev "C minor"%string 1; ev "C minor"%string 2; ev "C minor"%string 3;
+           ev "C minor"%string 0; ev "C minor"%string 1; ev "C minor"%string 2; ev "C minor"%string 3;
+           ev "D major"%string 0; ev "D major"%string 3; ev "D nineteen"%string 4; ev "E"%string 2])))
+  = [60; 62; 63; 65;  60; 62; 63; 65;  62; 67; 86; 68]
+  /\ scale_name_of "C minor"%string = Some "minor"%string /\ scale_name_of "E"%string = Some "major"%string
+  /\ reg_of init_store "minor"%string = Some 3%nat
+  /\ key_is_named lib_defaults (ev "C minor"%string 0) "C minor"%string.
 Proof. vm_compute. repeat split. left; reflexivity. Qed.
